@@ -448,3 +448,8 @@ for _cls in _SET_CLASSES:
                             "storage of an argument (base constructors inlined)")
         TASKS.append(FunctionTask(_c, module_env=_SET_ENV, label=f"hvsrpy.settings.{_cls}.__init__" + ("[fft_settings given]" if _fft else ""),
                                   clauses=["settings objects hold copies of what they are given: no state shared with callers, defaults or other objects"]))
+
+# Settings.__eq__ (contracts/similar.py): equal iff the attribute dictionaries are - the comparison the round-trip clause of the harness does *not* rely on (it compares content
+# attribute by attribute), put under contract for completeness
+import contracts.similar as _SIM
+TASKS += [t for t in _SIM.TASKS if ".settings." in t.label]
